@@ -22,7 +22,8 @@ pub fn enc_long(n: i64, out: &mut [u8; 10]) -> usize {
 pub fn dec_varint(data: &[u8], len: usize) -> Option<(u64, usize)> {
     let mut acc: u64 = 0;
     let mut i = 0usize;
-    while i < 10 {
+    let max = if data.len() < 10 { data.len() } else { 10 };
+    while i < max {
         if i >= len {
             return None;
         }
